@@ -137,3 +137,52 @@ pub fn cmd_sweep32(args: &[String]) -> i32 {
     println!("{}", json!({"reads": reads, "encodes": encs, "stride": stride, "mismatches": bad.len()}));
     0
 }
+
+/// vh sweepf16 <table.bin> <out.json>: Encoder::f16 on every single-precision bit pattern whose rounding class has a row in the table
+/// (a little-endian u16 per class index ((s * 256 + e) * 1024 + lead) * 4 + tail class; 0xffff = no row, 0xfffe = some NaN).
+/// The class function: sign, exponent, leading 10 mantissa bits, and how the 13-bit tail compares with half a unit (4096).
+pub fn cmd_sweepf16(args: &[String]) -> i32 {
+    let raw = std::fs::read(&args[0]).expect("table");
+    let table: Vec<u16> = raw.chunks(2).map(|c| u16::from_le_bytes([c[0], c[1]])).collect();
+    assert_eq!(table.len(), 2 * 256 * 1024 * 4);
+    let nthreads = std::thread::available_parallelism().map(|n| n.get()).unwrap_or(8).min(16) as u64;
+    let total: u64 = 1 << 32;
+    let per = total / nthreads;
+    let results: Vec<(u64, Vec<Value>)> = std::thread::scope(|s| {
+        let hs: Vec<_> = (0..nthreads).map(|k| {
+            let table = &table;
+            s.spawn(move || {
+                let (mut n, mut bad) = (0u64, Vec::<Value>::new());
+                let (lo, hi) = (k * per, if k == nthreads - 1 { total } else { (k + 1) * per });
+                let mut buf = [0u8; 8];
+                let mut bits = lo;
+                while bits < hi {
+                    let b = bits as u32;
+                    let tail = b & 0x1fff;
+                    let tc = if tail == 0 { 0 } else if tail < 4096 { 1 } else if tail == 4096 { 2 } else { 3 };
+                    let ix = (((b >> 31) as usize * 256 + ((b >> 23) & 0xff) as usize) * 1024 + ((b >> 13) & 0x3ff) as usize) * 4 + tc;
+                    let row = table[ix];
+                    if row == 0xffff {                  // no row for this class in this tier: skip the rest of its tail range cheaply
+                        bits = (bits | 0x1fff) + 1;
+                        continue
+                    }
+                    let mut e = Encoder::new(minicbor::encode::write::Cursor::new(&mut buf[..]));
+                    let ok = e.f16(f32::from_bits(b)).is_ok();
+                    let len = e.writer().position();
+                    n += 1;
+                    let got = u16::from_be_bytes([buf[1], buf[2]]);
+                    let good = ok && len == 3 && buf[0] == 0xf9 && if row == 0xfffe { (got & 0x7c00) == 0x7c00 && (got & 0x03ff) != 0 } else { got == row };
+                    if !good && bad.len() < 6 { bad.push(json!({"kind":"f16","bits":b,"wrote":buf[..len.min(8)].to_vec(),"expected_half":row})) }
+                    bits += 1;
+                }
+                (n, bad)
+            })
+        }).collect();
+        hs.into_iter().map(|h| h.join().unwrap()).collect()
+    });
+    let (mut n, mut bad) = (0u64, vec![]);
+    for (k, b) in results { n += k; bad.extend(b) }
+    std::fs::write(&args[1], json!({"narrowed": n, "mismatches": bad}).to_string()).unwrap();
+    println!("{}", json!({"narrowed": n, "mismatches": bad.len()}));
+    0
+}
